@@ -6,6 +6,7 @@ mod rng;
 mod fixedwindow;
 mod fsutil;
 mod levelgate;
+mod pattern;
 mod literals;
 mod reconfig;
 mod reloader;
@@ -24,6 +25,7 @@ fn main() {
         "routing" => routing::main(rest),
         "cfgbuild" => cfgbuild::main(rest),
         "fanout" => fanout::main(rest),
+        "pattern" => pattern::main(rest),
         "literals" => literals::main(rest),
         "envexpand" => envexpand::main(rest),
         "reconfig" => reconfig::main(rest),
